@@ -585,7 +585,7 @@ func checkSubset(in, out []kit.Tri, sel func(kit.V3) bool, what string) error {
 
 // flatBand classifies the input for EliminateCoplanar(eps).  An edge is flat when its two
 // face normals agree to 1e-12 rad, a crease when 1-cos exceeds 1e4*eps; anything between (or
-// a zero-area face) puts the case in the undecidable band.  A vertex with exactly two crease
+// a zero-area face, or two faces folded back onto each other) puts the case in the undecidable band.  A vertex with exactly two crease
 // edges is removable when they are colinear: the same trichotomy is applied to them.
 // Returns (band hit, number of flat edges).
 func flatBand(in []kit.Tri, eps float64) (bool, int) {
@@ -614,6 +614,12 @@ func flatBand(in []kit.Tri, eps float64) (bool, int) {
 		switch {
 		case c > 0 && s < 1e-12:
 			flat++
+		case c < 0 && s < 1e-6:
+			// two faces folded back onto each other (a flap without volume, as over-aggressive decimation of a
+			// cone leaves behind): all faces around a vertex of the flap lie in one plane, so the vertex is
+			// "coplanar" in the documented sense, yet removing it uncovers a doubly covered region.  Degenerate
+			// (not an embedded surface): no area/volume verdict.
+			return true, flat
 		case 1-c > 1e4*eps:
 			crease[e[0]] = append(crease[e[0]], e[1])
 			crease[e[1]] = append(crease[e[1]], e[0])
